@@ -78,11 +78,12 @@ def _check(content, lay):
     return True
 
 
-def las_layouts(vers20: bool, ncurves: int, nframes: int, params: bool, wrap: bool, lead: int, sep: int, comments: bool, blanks: bool, per_line: int, colon_pad: int, c0: int, c1: int, c2: int) -> bool:
+def las_layouts(vers20: bool, ncurves: int, nframes: int, params: bool, wrap: bool, lead: int, sep: int, comments: bool, blanks: bool, per_line: int, colon_pad: int, c0: int, c1: int, c2: int, cind: int = 0) -> bool:
     """
     pre: 1 <= ncurves <= 4 and 1 <= nframes <= 3
     pre: 0 <= lead <= 2 and 1 <= sep <= 3 and 1 <= per_line <= 3 and 0 <= colon_pad <= 2
     pre: 0 <= c0 <= 7 and c1 in (0, 4) and c2 in (1, 7)
+    pre: 0 <= cind <= 2 and (comments or cind == 0)
     pre: wrap or per_line == 1
     pre: ncurves >= 2 or not wrap
     pre: PART < 0 or (8 if vers20 else 0) + (4 if wrap else 0) + (2 if comments else 0) + (1 if blanks else 0) == PART
@@ -91,29 +92,30 @@ def las_layouts(vers20: bool, ncurves: int, nframes: int, params: bool, wrap: bo
     vers20, params, wrap, comments, blanks = mark.pickb(vers20), mark.pickb(params), mark.pickb(wrap), mark.pickb(comments), mark.pickb(blanks)
     ncurves, nframes, lead, sep = mark.pick(ncurves, 1, 4), mark.pick(nframes, 1, 3), mark.pick(lead, 0, 2), mark.pick(sep, 1, 3)
     per_line, colon_pad, c0 = mark.pick(per_line, 1, 3), mark.pick(colon_pad, 0, 2), mark.pick(c0, 0, 7)
-    c1, c2 = mark.pick_from(c1, (0, 4)), mark.pick_from(c2, (1, 7))
+    c1, c2, cind = mark.pick_from(c1, (0, 4)), mark.pick_from(c2, (1, 7)), mark.pick(cind, 0, 2)
     with mark.untraced():
         content = _content(vers20, ncurves, nframes, params, c0, c1, c2)
-        lay = dict(wrap=wrap, lead=lead, sep=sep, comments=comments, blanks=blanks, per_line=per_line, colon_pad=colon_pad)
+        lay = dict(wrap=wrap, lead=lead, sep=sep, comments=comments, blanks=blanks, per_line=per_line, colon_pad=colon_pad, comment_indent=['', '  ', '\t'][cind])
         return _check(content, lay)
 
 
-def las_layouts_q(vers20: bool, ncurves: int, nframes: int, wrap: bool, lead: int, sep: int, comments: bool, blanks: bool, per_line: int, c0: int) -> bool:
+def las_layouts_q(vers20: bool, ncurves: int, nframes: int, wrap: bool, lead: int, sep: int, comments: bool, blanks: bool, per_line: int, c0: int, cind: int = 0) -> bool:
     """
     pre: 1 <= ncurves <= 4 and 1 <= nframes <= 2
     pre: lead in (0, 2) and sep in (1, 3) and 1 <= per_line <= 2
     pre: 0 <= c0 <= 7
+    pre: 0 <= cind <= 2 and (comments or cind == 0)
     pre: wrap or per_line == 1
     pre: ncurves >= 2 or not wrap
     pre: PART < 0 or (8 if vers20 else 0) + (4 if wrap else 0) + (2 if comments else 0) + (1 if blanks else 0) == PART
     post: _
     """
-    vers20, wrap, comments, blanks = mark.pickb(vers20), mark.pickb(wrap), mark.pickb(comments), mark.pickb(blanks)
+    vers20, wrap, comments, blanks, cind = mark.pickb(vers20), mark.pickb(wrap), mark.pickb(comments), mark.pickb(blanks), mark.pick(cind, 0, 2)
     ncurves, nframes, lead, sep = mark.pick(ncurves, 1, 4), mark.pick(nframes, 1, 2), mark.pick_from(lead, (0, 2)), mark.pick_from(sep, (1, 3))
     per_line, c0 = mark.pick(per_line, 1, 2), mark.pick(c0, 0, 7)
     with mark.untraced():
         content = _content(vers20, ncurves, nframes, ncurves % 2 == 0, c0, 4, 7)
-        lay = dict(wrap=wrap, lead=lead, sep=sep, comments=comments, blanks=blanks, per_line=per_line, colon_pad=1 + lead // 2)
+        lay = dict(wrap=wrap, lead=lead, sep=sep, comments=comments, blanks=blanks, per_line=per_line, colon_pad=1 + lead // 2, comment_indent=['', '  ', '\t'][cind])
         return _check(content, lay)
 
 
